@@ -1,6 +1,248 @@
 /-
   Props.C10 — property theorems for C10 (UTXO records and snapshot files are lossless).
+  Theorems ONLY; helper lemmas live in GocoinV/Proofs/C10*.lean. Every theorem is about the definitions
+  that the oracle executes and the harness compares with the Go code:
+    Model.AmountCompress (btc.CompressAmount/DecompressAmount), Model.ScriptCompress
+    (script.CompressScript/DecompressScript/IsP2PK), Model.UtxoRec (SerializeU/C, NewUtxoRecOwnU/C,
+    OneUtxoRecU/C, UnspentDB.save / NewUnspentDb framing).
 -/
-import GocoinV.Model.UtxoRec
+import GocoinV.Proofs.C10Size
+import GocoinV.Proofs.C10Snap
 namespace GocoinV.Props.C10
+open GocoinV GocoinV.UtxoRec GocoinV.ScriptCompress GocoinV.CompactSize
+
+/-! ## amounts -/
+
+/-- `DecompressAmount(CompressAmount(n)) = n` whenever the compressed value fits in a uint64
+    (stated with `compressExact`, the encoding computed without wrap-around); under that condition the
+    wrapping Go arithmetic computes exactly `compressExact`. -/
+theorem amount_roundtrip_exact (n : Nat) (hn : n < 2 ^ 64)
+    (hfit : AmountCompress.compressExact n < 2 ^ 64) :
+    AmountCompress.compress n = AmountCompress.compressExact n ∧
+      AmountCompress.decompress (AmountCompress.compress n) = n := by
+  have := amount_rt n hn hfit
+  have e : (2 : Nat) ^ 64 = AmountCompress.U64 := by decide
+  exact ⟨AmountCompress.compress_eq_exact n (e ▸ hfit), this.2⟩
+
+/-- The explicit bound: every amount up to 1844674407370955160 (> 8·10^17 times… far above the
+    21·10^14 of the property's quantifier) round-trips. -/
+theorem amount_roundtrip (n : Nat) (hn : n ≤ 1844674407370955160) :
+    AmountCompress.decompress (AmountCompress.compress n) = n := by
+  have h := AmountCompress.compressExact_le n
+  exact (amount_roundtrip_exact n (by omega) (by omega)).2
+
+/-- the property's own range, as a corollary -/
+theorem amount_roundtrip_money (n : Nat) (hn : n ≤ 2100000000000000) :
+    AmountCompress.decompress (AmountCompress.compress n) = n :=
+  amount_roundtrip n (by omega)
+
+/-- The overflow region is real: `CompressAmount` wraps near 2^64 and the round trip fails there
+    (outside the quantifier; no consensus-valid amount is that large). -/
+theorem amount_wrap_counterexample :
+    AmountCompress.decompress (AmountCompress.compress 18446744073709551615) ≠ 18446744073709551615 := by
+  decide
+
+/-! ## scripts -/
+
+/-- `DecompressScript(CompressScript(s)) = s` for EVERY script the compressor accepts (P2KH, P2SH,
+    P2PK with a compressed key — never validated —, P2PK with an uncompressed key that `valid65`
+    accepted), for every pair of key functions that satisfies `KeyOps.Sound`: expanding the compressed
+    form of an accepted 65-byte key returns that key. -/
+theorem script_roundtrip (K : KeyOps) (hK : K.Sound) (s c : Bytes) (h : compress K s = some c) :
+    decompress K c = .ok s :=
+  decompress_compress K hK s c h
+
+/-- Why `ParsePubkey`'s range check matters for C10 (the defect DESIGN §7 F2 expected here, repaired
+    in /repo by commit 06ea4281): with the validity test that only checks the curve equation mod p
+    (`legacyKeys`), the script `65 04 (p+1) y ac` is compressed and comes back with X = 1. -/
+theorem script_roundtrip_needs_canonical :
+    let y : Nat := 0x4218f20ae6c646b363db68605822fb14264ca8d2587fdd6fbc750d587e76a7ee
+    let s : Bytes := 65 :: 4 :: (beBytes 32 (P + 1) ++ beBytes 32 y) ++ [0xac]
+    ∃ c, compress legacyKeys s = some c ∧ decompress legacyKeys c ≠ .ok s ∧
+      compress mathKeys s = none := by
+  refine ⟨4 :: beBytes 32 (P + 1), ?_, ?_, ?_⟩ <;> decide +kernel
+
+/-- special_prefix_disjoint: a compressed script starts with a type byte `t < 6` and is exactly
+    `ComprScrLen[t]` bytes long, while the length prefix `6+len` of a script stored verbatim decodes to
+    a value `≥ 6` — the decoder's test `i < 6` can never confuse the two. -/
+theorem special_prefix_disjoint (K : KeyOps) (s rest : Bytes) (hl : s.length + 6 < 2 ^ 63) :
+    (∀ c, compress K s = some c →
+        ∃ t tl, c = t :: tl ∧ t.toNat < 6 ∧ c.length = comprScrLen.getD t.toNat 0 ∧
+          (vlen (c ++ rest)).1 = t.toNat) ∧
+    (compress K s = none → (vlen (putULe (6 + s.length) ++ rest)).1 ≥ 6) := by
+  constructor
+  · intro c hc
+    obtain ⟨t, tl, rfl, ht, hlen⟩ := compress_shape K s c hc
+    refine ⟨t, tl, rfl, ht, hlen, ?_⟩
+    rw [List.cons_append, vlen_small t (by omega)]
+  · intro _
+    rw [vlen_putULe _ (by omega)]
+    simp only; omega
+
+/-! ## records -/
+
+/-- recU_roundtrip: `NewUtxoRec(SerializeU(rec)) = rec` for every well-formed record (32-byte txid,
+    uint32 height, < 2^32 outputs, uint64 amounts, scripts < 2^63 bytes) — any number of outputs, any
+    subset spent (`serializeU r = some b` says at least one is live), any script, any amount. -/
+theorem recU_roundtrip (r : Rec) (h : WFRec r) (b : Bytes) (hs : serializeU r = some b) :
+    newRecU b = .ok r :=
+  newRecU_serializeU r h b hs
+
+/-- recC_roundtrip: the same in the compressed format, for amounts on which `CompressAmount` does not
+    wrap (`WFOutC`) and key functions satisfying `KeyOps.Sound`. -/
+theorem recC_roundtrip (K : KeyOps) (hK : K.Sound) (r : Rec) (h : WFRecC r) (b : Bytes)
+    (hs : serializeC K r = some b) : newRecC K b = .ok r :=
+  newRecC_serializeC K hK r h b hs
+
+/-- oneU_eq: looking up one output in the serialised record gives the same amount, script, height,
+    coinbase flag and output count as decoding the whole record and taking that field; nil for a spent
+    or out-of-range index. -/
+theorem oneU_eq (r : Rec) (h : WFRec r) (b : Bytes) (hs : serializeU r = some b) (vout : Nat) :
+    oneU b vout = .ok (outOf r vout) ∧
+      (∀ r', newRecU b = .ok r' → oneU b vout = .ok (outOf r' vout)) := by
+  refine ⟨oneU_serializeU r h b hs vout, ?_⟩
+  intro r' hr'
+  rw [newRecU_serializeU r h b hs] at hr'
+  injection hr' with hr'; subst hr'
+  exact oneU_serializeU r h b hs vout
+
+/-- oneC_eq: the same for the compressed format. -/
+theorem oneC_eq (K : KeyOps) (hK : K.Sound) (r : Rec) (h : WFRecC r) (b : Bytes)
+    (hs : serializeC K r = some b) (vout : Nat) :
+    oneC K b vout = .ok (outOf r vout) ∧
+      (∀ r', newRecC K b = .ok r' → oneC K b vout = .ok (outOf r' vout)) := by
+  refine ⟨oneC_serializeC K hK r h b hs vout, ?_⟩
+  intro r' hr'
+  rw [newRecC_serializeC K hK r h b hs] at hr'
+  injection hr' with hr'; subst hr'
+  exact oneC_serializeC K hK r h b hs vout
+
+/-- The buffer length `le` that `Serialize` computes in its first loop is exactly the number of bytes
+    its second loop writes, in both formats (no write past the allocation, no stale tail). -/
+theorem serialize_length_exact (K : KeyOps) (r : Rec) (ht : r.txid.length = 32) :
+    (∀ b, serializeU r = some b → b.length = sizeU r) ∧
+    (∀ b, serializeC K r = some b → b.length = sizeC K r) :=
+  ⟨fun b hs => sizeU_eq r ht b hs, fun b hs => sizeC_eq K r ht b hs⟩
+
+/-- `Serialize` returns nil exactly when no output is live (both formats). -/
+theorem serialize_nil_iff (K : KeyOps) (r : Rec) :
+    (serializeU r = none ↔ anyOut r.outs = false) ∧ (serializeC K r = none ↔ anyOut r.outs = false) := by
+  unfold serializeU serializeC
+  cases anyOut r.outs <;> simp
+
+/-! ## snapshot file -/
+
+/-- snapshot_roundtrip (framing): reading the file `save` wrote returns the mode bit, height, block
+    hash and the records, in order, for 0..n records; trailing bytes are ignored. -/
+theorem snapshot_roundtrip (s : Snap) (h : WFSnap s) (extra : Bytes) :
+    snapDecode (snapEncode s ++ extra) = some s :=
+  snapDecode_snapEncode s h extra
+
+/-- Whole pipeline, plain format: records serialised, written to a snapshot, reloaded and decoded
+    with the codec the file's mode bit selects, are the records that went in. -/
+theorem snapshot_records_roundtripU (height : Nat) (hash : Bytes) (rs : List Rec) (bs : List Bytes)
+    (hh : height < 2 ^ 32) (hhash : hash.length = 32) (hn : rs.length < 2 ^ 64)
+    (hwf : ∀ r ∈ rs, WFRec r) (hser : rs.map serializeU = bs.map some)
+    (hlen : ∀ b ∈ bs, b.length < 2 ^ 64) :
+    ∃ s, snapDecode (snapEncode ⟨false, height, hash, bs⟩) = some s ∧ s.compressed = false ∧
+      s.height = height ∧ s.hash = hash ∧ s.recs.map newRecU = rs.map Res.ok := by
+  have hbl : bs.length = rs.length := by
+    have := congrArg List.length hser; simpa using this.symm
+  have := snapDecode_snapEncode ⟨false, height, hash, bs⟩ ⟨hh, hhash, by simpa [hbl] using hn, hlen⟩ []
+  rw [List.append_nil] at this
+  refine ⟨_, this, rfl, rfl, rfl, ?_⟩
+  simp only
+  clear this hbl hlen hn
+  induction rs generalizing bs with
+  | nil => cases bs <;> simp_all
+  | cons r t ih =>
+    cases bs with
+    | nil => simp at hser
+    | cons b bt =>
+      simp only [List.map_cons, List.cons.injEq] at hser ⊢
+      exact ⟨newRecU_serializeU r (hwf r (by simp)) b hser.1,
+        ih bt (fun x hx => hwf x (List.mem_cons_of_mem _ hx)) hser.2⟩
+
+/-- Whole pipeline, compressed format. -/
+theorem snapshot_records_roundtripC (K : KeyOps) (hK : K.Sound) (height : Nat) (hash : Bytes)
+    (rs : List Rec) (bs : List Bytes)
+    (hh : height < 2 ^ 32) (hhash : hash.length = 32) (hn : rs.length < 2 ^ 64)
+    (hwf : ∀ r ∈ rs, WFRecC r) (hser : rs.map (serializeC K) = bs.map some)
+    (hlen : ∀ b ∈ bs, b.length < 2 ^ 64) :
+    ∃ s, snapDecode (snapEncode ⟨true, height, hash, bs⟩) = some s ∧ s.compressed = true ∧
+      s.height = height ∧ s.hash = hash ∧ s.recs.map (newRecC K) = rs.map Res.ok := by
+  have hbl : bs.length = rs.length := by
+    have := congrArg List.length hser; simpa using this.symm
+  have := snapDecode_snapEncode ⟨true, height, hash, bs⟩ ⟨hh, hhash, by simpa [hbl] using hn, hlen⟩ []
+  rw [List.append_nil] at this
+  refine ⟨_, this, rfl, rfl, rfl, ?_⟩
+  simp only
+  clear this hbl hlen hn
+  induction rs generalizing bs with
+  | nil => cases bs <;> simp_all
+  | cons r t ih =>
+    cases bs with
+    | nil => simp at hser
+    | cons b bt =>
+      simp only [List.map_cons, List.cons.injEq] at hser ⊢
+      exact ⟨newRecC_serializeC K hK r (hwf r (by simp)) b hser.1,
+        ih bt (fun x hx => hwf x (List.mem_cons_of_mem _ hx)) hser.2⟩
+
+
+/-! ## non-vacuity: the hypotheses of the theorems above are satisfiable on concrete data -/
+
+/-- amount_roundtrip_exact: its hypotheses hold for 21·10^14 and for the largest amount with e = 9 -/
+example : AmountCompress.compressExact 2100000000000000 < 2 ^ 64 ∧
+    AmountCompress.compressExact 18000000000000000000 < 2 ^ 64 := by decide
+
+/-- a `KeyOps` that accepts exactly the generator point G and is `Sound` (the uncompressed-key
+    branch of `script_roundtrip` is reachable under its hypothesis) -/
+def g65 : Bytes := 4 :: (beBytes 32 0x79be667ef9dcbbac55a06295ce870b07029bfcdb2dce28d959f2815b16f81798 ++
+  beBytes 32 0x483ada7726a3c4655da4fbfc0e1108a8fd17b448a68554199c47d08ffb10d4b8)
+def kG : KeyOps := { valid65 := fun k => k == g65, expand33 := fun _ => g65 }
+
+example : kG.Sound := by
+  intro pk _ _ hv
+  have : pk = g65 := by simpa [kG] using hv
+  subst this; rfl
+
+example : (compress kG (65 :: g65 ++ [0xac])).isSome = true ∧
+    compress kG (65 :: g65 ++ [0xac]) = some (4 :: (g65.drop 1).take 32) := by
+  decide +kernel
+
+/-- the model's own arithmetic key functions accept G and expand its compressed form back to G -/
+example : mathKeys.valid65 g65 = true ∧
+    mathKeys.expand33 (((4 ||| (at' g65 64 &&& 1)) - 2) :: (g65.drop 1).take 32) = g65 := by
+  decide +kernel
+
+/-- P2KH and P2SH are accepted by the compressor for any `KeyOps` -/
+example (K : KeyOps) : (compress K ([0x76, 0xa9, 0x14] ++ List.replicate 20 7 ++ [0x88, 0xac])).isSome
+    ∧ (compress K ([0xa9, 0x14] ++ List.replicate 20 7 ++ [0x87])).isSome := by
+  constructor <;> rfl
+
+def exRec : Rec :=
+  ⟨List.replicate 32 0xab, 502809, true,
+    [none, some ⟨546, [0x76, 0xa9, 0x14] ++ List.replicate 20 7 ++ [0x88, 0xac]⟩, none, some ⟨0, [0x6a]⟩]⟩
+
+/-- recU_roundtrip / recC_roundtrip / oneU_eq / oneC_eq: a sparse coinbase record satisfies the
+    hypotheses in both formats -/
+example : WFRec exRec ∧ (serializeU exRec).isSome ∧ WFRecC exRec ∧ (serializeC kG exRec).isSome := by
+  have hwf : WFRecC exRec := by
+    refine ⟨by decide, by decide, by decide, ?_⟩
+    intro o ho x hx
+    simp only [exRec, List.mem_cons, List.not_mem_nil, or_false] at ho
+    rcases ho with rfl | rfl | rfl | rfl
+    all_goals first
+      | (simp at hx; done)
+      | (injection hx with hx; subst hx; exact ⟨by decide, by decide, by decide⟩)
+  exact ⟨hwf.toU, by decide, hwf, by decide⟩
+
+/-- snapshot_roundtrip: hypotheses hold for an empty snapshot and for one with two records -/
+example : WFSnap ⟨true, 840000, List.replicate 32 1, []⟩ ∧
+    WFSnap ⟨false, 0, List.replicate 32 0, [[1, 2, 3], []]⟩ := by
+  refine ⟨⟨by decide, by decide, by decide, by simp⟩, ⟨by decide, by decide, by decide, ?_⟩⟩
+  intro r hr
+  simp at hr
+  rcases hr with rfl | rfl <;> decide
+
 end GocoinV.Props.C10
